@@ -33,8 +33,8 @@ Judge(inp, out) ==
   LET want == RefOut(inp)
       got == SelectSeq(Flat(out), LAMBDA e : e.c # "ACT") IN
   IF Chars(got) # Chars(want) THEN "text"            \* a line wrongly removed or kept
-  \* same text: a surviving character of the document must keep its position (a token with one fixed position for
-  \* all its characters - generated text - may be re-anchored inside its construct when it is shortened: C04's matter)
+  \* same text: a surviving character must keep its position (also a character of a token with one fixed position)
   ELSE IF \E i \in 1..Len(got) : ~want[i].fx /\ got[i].p # want[i].p THEN "positions"
+  ELSE IF \E i \in 1..Len(got) : got[i].p # want[i].p THEN "fixed-positions"
   ELSE "ok"
 =============================================================================
